@@ -95,7 +95,11 @@ def run_case(case, ch: Choices) -> RunResult:
     _rc = genrun.run_child
     _loc = [None]
 
+    _odd_env = [None]
+
     def run_child(*a, **kw):
+        if _odd_env[0] is not None and "env" not in kw:
+            kw["env"] = _odd_env[0]
         # (only for projects whose non-ASCII text cannot reach the generated files: on this tree the package writer uses the
         # locale's encoding, so others fail under an ASCII locale - an observation outside the claimed properties)
         if _loc[0] is not None and world.get("locale_safe"):
@@ -143,7 +147,7 @@ def run_case(case, ch: Choices) -> RunResult:
                       "crash_at": None, "crash_kind": None}
                 if st["prior"] == "crashed_prefix":
                     st["crash_at"] = 1 + ch.draw("env.crash_at", max(1, writes0))
-                    st["crash_kind"] = ch.pick("env.crash_kind", ["crash", "enospc", "eio", "torn", "torn", "empty"])
+                    st["crash_kind"] = ch.pick("env.crash_kind", ["crash", "enospc", "eio", "torn", "torn", "empty", "torn_anywhere", "enospc_anywhere"])
             envs.append(st)
             _loc[0] = (st.get("hashseed") or 0) + si if world.get("locale_safe") else None
             if _loc[0] is not None:
@@ -151,6 +155,19 @@ def run_case(case, ch: Choices) -> RunResult:
             root = os.path.join(base, "s%d" % si)
             m = worlds.materialize(world, root, spart, qpart, creation_order_seed=st["creation_seed"], tail_seed=tail_seed,
                                    symlink_seed=symlink_seed)
+            if world.get("literal_odd_dirs"):
+                # HOME and GRAPHQL_SOURCES of this step's process name directories that hold copies of the same files: if '~' or
+                # '$GRAPHQL_SOURCES' were expanded the generator would still find its inputs - but under another path
+                home_ = os.path.join(base, "elsewhere_%d" % si, "home")
+                srcs_ = os.path.join(base, "elsewhere_%d" % si, "sources")
+                os.makedirs(home_, exist_ok=True)
+                os.makedirs(srcs_, exist_ok=True)
+                for src_, dst_ in ((os.path.join(root, "~", "schema.graphql"), os.path.join(home_, "schema.graphql")),
+                                   (os.path.join(root, "$GRAPHQL_SOURCES", "queries.graphql"), os.path.join(srcs_, "queries.graphql"))):
+                    if os.path.exists(src_):
+                        shutil.copyfile(src_, dst_)
+                _odd_env[0] = {"HOME": home_, "GRAPHQL_SOURCES": srcs_}
+                res.bump("fault.home_and_variables_named_in_paths_changed")
             target = m["targets"][0]
             prior = st["prior"]
             if ref["exit"] != 0 and prior in ("over_existing", "crashed_prefix", "twice"):
@@ -467,7 +484,7 @@ def plan(tier, base_seed) -> Plan:
         forced_sets.append({"hashseed": hs, "enum_seed": 100 + i, "creation_seed": 7 + i, "clock": 1_700_000_000.0 + i,
                             "prior": ["crashed_prefix", "over_existing_perturbed", "same_process_twice", "same_process_other_strategy", "same_process_after_edit",
                                       "other_cwd", "same_process_after_other", "over_existing"][i % 8],
-                            "crash_at": [3, 0, 0, 0, 0, 0, 0, 0][i % 8], "crash_kind": ["torn", "crash", "crash", "crash", "crash", "crash", "crash", "crash"][i % 8]})
+                            "crash_at": [3, 0, 0, 0, 0, 0, 0, 0][i % 8], "crash_kind": ["enospc_anywhere", "crash", "crash", "crash", "crash", "crash", "crash", "crash"][i % 8]})
     n_corpus = len(cws)
     # thorough: the previous generation is torn at EVERY write of a corpus world, systematically (kinds alternate)
     sweeps = []
@@ -475,7 +492,7 @@ def plan(tier, base_seed) -> Plan:
         for w in cws:
             for lo in (1, 8, 15):
                 sweeps.append((w, [{"hashseed": [1, 2, 3][(k + lo) % 3], "enum_seed": 50 + k, "creation_seed": None, "clock": 1_700_000_000.0,
-                                    "prior": "crashed_prefix", "crash_at": k, "crash_kind": ["torn", "empty", "crash", "enospc"][k % 4]}
+                                    "prior": "crashed_prefix", "crash_at": k, "crash_kind": ["torn", "empty", "crash", "enospc", "torn_anywhere", "enospc_anywhere"][k % 6]}
                                    for k in range(lo, lo + 7)]))
     n_sweep = len(sweeps)
 
